@@ -1,10 +1,14 @@
 #![allow(dead_code)]
+mod events;
 mod flat;
 mod gen;
 mod mon;
 mod probe;
 
+mod c01;
 mod c02;
+mod c07;
+mod c09;
 mod c03;
 mod c12;
 mod c13;
@@ -23,6 +27,21 @@ fn main() {
     install_panic_hook();
     let t0 = std::time::Instant::now();
     let mut m = Mon::new(&a.prop);
+    let offline: Option<fn(&Args, &mut Mon, &mut events::Sink)> = match a.prop.as_str() {
+        "C01" => Some(c01::drive),
+        "C07" => Some(c07::drive07),
+        "C08" => Some(c07::drive08),
+        "C09" => Some(c09::drive09),
+        "C10" => Some(c09::drive10),
+        _ => None,
+    };
+    if let Some(f) = offline {
+        let mut sink = events::Sink::stdout();
+        f(&a, &mut m, &mut sink);
+        let wall = t0.elapsed().as_secs_f64();
+        sink.finish(m, wall);
+        return;
+    }
     match a.prop.as_str() {
         "C02" => c02::run(&a, &mut m),
         "C03" => c03::run(&a, &mut m),
